@@ -1008,6 +1008,205 @@ fn run_fd(ws: &[&str]) -> (String, String) {
     (obs, oracle)
 }
 
+
+// ------------------------------------------------------------------------------------------
+// (ii-d) here-documents: generated bodies delivered to readers, exact bytes observed
+
+const ASCII_TAB: &str = "abcdefghijklmnopqrstuvwxyzABC 0123456789.,:;+=_/[]";
+
+fn hd_char(cls: usize, i: usize) -> char {
+    let c = if cls == 4 { i % 4 } else { cls };
+    match c {
+        1 => char::from_u32((0xC0 + (i * 5) % 0x80) as u32).unwrap(),
+        2 => char::from_u32((0x6771 + (i * 3) % 200) as u32).unwrap(),
+        3 => char::from_u32((0x1F600 + i % 60) as u32).unwrap(),
+        _ => ASCII_TAB.as_bytes()[(i * 7 + i / 13) % 50] as char,
+    }
+}
+
+fn hd_body(n: usize, cls: usize, ll: usize) -> String {
+    (0..n)
+        .map(|i| if i + 1 == n || i % ll == ll - 1 { '\n' } else { hd_char(cls, i) })
+        .collect()
+}
+
+fn hd_value(vn: usize, cls: usize) -> String {
+    (0..vn).map(|i| hd_char(cls, i + 1000)).collect()
+}
+
+thread_local! {
+    static HVALUE: RefCell<String> = const { RefCell::new(String::new()) };
+}
+
+/// `hgen` : writes the expansion value followed by two newlines (which `$( )` removes again).
+fn hgen_main(env: &mut VEnv, _args: Vec<Field>) -> BuiltinFuture<'_> {
+    Box::pin(async move {
+        let text = HVALUE.with(|v| format!("{}\n\n", v.borrow()));
+        match env.system.write_all(Fd::STDOUT, text.as_bytes()).await {
+            Ok(_) => ExitStatus::SUCCESS.into(),
+            Err(_) => ExitStatus::FAILURE.into(),
+        }
+    })
+}
+
+/// `hhead K` : one `read` of K bytes from standard input, copied to standard output (a reader that
+/// stops early, possibly in the middle of a character).
+fn hhead_main(env: &mut VEnv, args: Vec<Field>) -> BuiltinFuture<'_> {
+    let k: usize = args.first().and_then(|f| f.value.parse().ok()).unwrap_or(0);
+    Box::pin(async move {
+        let mut buffer = vec![0u8; k];
+        match env.system.read(Fd::STDIN, &mut buffer).await {
+            Ok(n) => match env.system.write_all(Fd::STDOUT, &buffer[..n]).await {
+                Ok(_) => ExitStatus::SUCCESS.into(),
+                Err(_) => ExitStatus::FAILURE.into(),
+            },
+            Err(_) => ExitStatus::FAILURE.into(),
+        }
+    })
+}
+
+fn show_bytes(x: &[u8]) -> String {
+    let hex = |b: &[u8]| -> String { b.iter().map(|b| format!("{b:02x}")).collect() };
+    format!(
+        "len={} sum={} head={} tail={}",
+        x.len(),
+        hash_bytes(x),
+        hex(&x[..x.len().min(8)]),
+        hex(&x[x.len().saturating_sub(8)..])
+    )
+}
+
+fn first_line(b: &[u8]) -> Vec<u8> {
+    match b.iter().position(|c| *c == b'\n') {
+        Some(p) => b[..=p].to_vec(),
+        None => b.to_vec(),
+    }
+}
+
+fn run_hd(ws: &[&str]) -> (String, String) {
+    let n = kv_n(ws, "n");
+    let cls = kv_n(ws, "cls");
+    let ll = kv_n(ws, "ll").max(1);
+    let quoted = kv_n(ws, "q") != 0;
+    let dash = kv_n(ws, "dash") != 0;
+    let exp = if n == 0 { 0 } else { kv_n(ws, "exp") };
+    let rd = kv(ws, "rd").unwrap_or("cat");
+    let k = kv_n(ws, "k");
+    let via = kv(ws, "via").unwrap_or("b");
+    let multi = kv_n(ws, "multi") != 0;
+    let body = hd_body(n, cls, ll);
+    let value = hd_value(kv_n(ws, "vn"), cls);
+    let split = body.char_indices().nth(n / 2).map(|x| x.0).unwrap_or(body.len());
+    let (lit1, lit2) = body.split_at(split);
+    // what is written in the script, and what the shell must deliver
+    let (source, expanded) = match (exp, quoted) {
+        (0, _) => (body.clone(), body.clone()),
+        (1, true) => (format!("{lit1}${{v}}{lit2}"), format!("{lit1}${{v}}{lit2}")),
+        (_, true) => (format!("{lit1}$(hgen){lit2}"), format!("{lit1}$(hgen){lit2}")),
+        (1, false) => (format!("{lit1}${{v}}{lit2}"), format!("{lit1}{value}{lit2}")),
+        (_, false) => (format!("{lit1}$(hgen){lit2}"), format!("{lit1}{value}{lit2}")),
+    };
+    let body2 = hd_body(n * 3 / 4 + 5, (cls + 1) % 5, ll);
+    if source.split('\n').any(|l| l.trim_start_matches('\t') == "END_C14") {
+        return ("bad-case".into(), "-".into());
+    }
+    // `<<-`: every source line (and the delimiter) gets leading tabs, which the shell must strip
+    let source = if dash {
+        let mut out = String::new();
+        for (j, line) in source.split_inclusive('\n').enumerate() {
+            out.push_str(if j % 2 == 0 { "\t" } else { "\t\t" });
+            out.push_str(line);
+        }
+        out
+    } else {
+        source
+    };
+    let reader = match rd {
+        "cat" => "cat".to_string(),
+        "read" => "while IFS= read -r l; do echo \"$l\"; done".to_string(),
+        "mix" => "IFS= read -r l; echo \"$l\"; cat".to_string(),
+        "stop" => "IFS= read -r l; echo \"$l\"".to_string(),
+        "head" => format!("hhead {k}"),
+        _ => return ("bad-case".into(), "-".into()),
+    };
+    let reader = if multi { format!("{reader}; cat <&3") } else { reader };
+    let op = format!(
+        "<<{}{}{}",
+        if dash { "-" } else { "" },
+        if quoted { "'END_C14'" } else { "END_C14" },
+        if multi { " 3<<'END2_C14'" } else { "" }
+    );
+    let first = match via {
+        "b" => format!("{{ {reader}; }} >/out {op}"),
+        "s" => format!("( {reader} ) >/out {op}"),
+        "f" => format!("f() {{ {reader}; }}\nf >/out {op}"),
+        "p" => format!("{{ {reader}; }} {op} | cat >/out"),
+        _ => return ("bad-case".into(), "-".into()),
+    };
+    let mut script = format!("v='{value}'\n{first}\n{source}{}END_C14\n", if dash { "\t" } else { "" });
+    if multi {
+        script.push_str(&body2);
+        script.push_str("END2_C14\n");
+    }
+    // the property statement, directly: the reader finds exactly the bytes of the expanded body
+    let b = expanded.as_bytes();
+    let mut want: Vec<u8> = match rd {
+        "mix" => if b.is_empty() { b"\n".to_vec() } else { b.to_vec() },
+        "stop" => if b.is_empty() { b"\n".to_vec() } else { first_line(b) },
+        "head" => b[..k.min(b.len())].to_vec(),
+        _ => b.to_vec(),
+    };
+    if multi {
+        want.extend_from_slice(body2.as_bytes());
+    }
+    HVALUE.with(|v| *v.borrow_mut() = value.clone());
+    let mut config = Config::new(&script);
+    config.max_rounds = 400_000;
+    let (out, value) = shell::run_with(
+        config,
+        |env, _| {
+            env.builtins.insert("hgen", Builtin::new(Type::Mandatory, hgen_main));
+            env.builtins.insert("hhead", Builtin::new(Type::Mandatory, hhead_main));
+        },
+        |_, state| shell::read_file(state, "/out"),
+    );
+    if out.stuck {
+        return ("TIMEOUT".into(), "FAIL:deadlock".into());
+    }
+    let got: Vec<u8> = value.flatten().unwrap_or_default();
+    let mut obs = show_bytes(&got);
+    if !out.stderr.is_empty() || out.exit_status != 0 {
+        obs = format!("ERR(status={},stderr={}) {}", out.exit_status, out.stderr.len(), obs);
+    }
+    let oracle = if got == want {
+        "ok".to_string()
+    } else {
+        let at = got
+            .iter()
+            .zip(want.iter())
+            .position(|(a, b)| a != b)
+            .unwrap_or(got.len().min(want.len()));
+        format!("FAIL:bytes-differ-at-{at}(got {} want {})", got.len(), want.len())
+    };
+    (obs, oracle)
+}
+
+fn gen_hd(rng: &mut Rng, n: usize) -> String {
+    let cls = rng.below(5);
+    let ll = *rng.pick(&[1, 2, 7, 40, 80, 200, 1000]);
+    let q = rng.below(2);
+    let dash = if rng.chance(1, 3) { 1 } else { 0 };
+    let exp = *rng.pick(&[0, 0, 1, 2]);
+    let rd = *rng.pick(&["cat", "cat", "read", "mix", "stop", "head"]);
+    // `read` works byte by byte: keep its bodies moderate
+    let n = if (rd == "read" || rd == "mix") && n > 1500 { n % 1500 } else { n };
+    let k = *rng.pick(&[0, 1, 2, 3, 5, 100, PIPE_BUF, PIPE_SIZE, PIPE_SIZE + 1, 5000]);
+    let via = *rng.pick(&["b", "s", "f", "p"]);
+    let multi = if rng.chance(1, 4) { 1 } else { 0 };
+    let vn = *rng.pick(&[0, 1, 5, 60, 700]);
+    format!("hd n={n} cls={cls} ll={ll} q={q} dash={dash} exp={exp} rd={rd} k={k} via={via} multi={multi} vn={vn}")
+}
+
 // ------------------------------------------------------------------------------------------
 // case generation
 
@@ -1091,6 +1290,7 @@ fn run_case(case: &str) -> (String, String) {
         Some(&"xfer") => run_xfer(&ws[1..]),
         Some(&"sh") => run_sh(&ws[1..]),
         Some(&"fd") => run_fd(&ws[1..]),
+        Some(&"hd") => run_hd(&ws[1..]),
         _ => run_ops(case),
     }
 }
@@ -1167,6 +1367,20 @@ fn main() {
                 run(&case, false);
             }
         }
+    }
+
+    // (ii-d) here-documents: character counts 0 … several KiB around every boundary, plus random
+    let hd_reps = if thorough { 30 } else { 4 };
+    for &n in &sizes {
+        for _ in 0..hd_reps {
+            let case = gen_hd(&mut rng, n);
+            run(&case, false);
+        }
+    }
+    for _ in 0..(if thorough { 8_000 } else { 300 }) {
+        let n = if rng.chance(1, 2) { rng.below(200) } else { rng.below(2 * PIPE_SIZE + 3) };
+        let case = gen_hd(&mut rng, n);
+        run(&case, false);
     }
 
     // (ii-b) shell-level flows
